@@ -38,14 +38,14 @@ CHECKS = {
          "ledger: all sequences up to depth 4 / 6 over deposits (0, 1, 9000 GAS, 9000 GAS+1; receiver data nil/20/19 bytes/ignore marker; foreign signer), direct and non-GAS payment-hook calls, withdraw (-1,0,1,9000,9001; owner/stranger), cheque, candidate add/remove, fee changes; contract GAS == received - cheques, exact fees to the right payees, Deposit notification <=> GAS transfer, refused => empty diff on contracts and GAS. emit: Alphabet contract index {0,2} x Inner Ring size 1..7 x g in [0,256]/[0,4096] plus powers of 2/10 boundaries up to 10^12 x signer {own node, other node, Alphabet multisig, stranger}: exact shares, conservation, g<2 faults; Proxy/Processing/Alphabet x {GAS, NEO, non-GAS contract} acceptance", "4.19"),
  "C20": ("chainmc", "five explicit-state BFS explorations (Reputation, Audit, container size estimations, NeoFSID, Netmap/NeoFS configuration) against multiset/map models with all-combination read-back",
          "all put sequences up to depth 3..4 / 4..6 per store over epochs {0,1,127,128,255,256,257,65535,65536} (encodings that are prefixes of one another), 2 containers, 2-3 nodes/peers/owners, 2 values, configuration keys {'',a,ab,abc,b}; after every step every getter and listing for every (epoch, container, node, owner, key) combination; estimation access rules (node of the previous map, witnessed, existing container), audit access rules (Inner Ring member, witnessed), cleanup deltas 3/4 on put and on tick incl. a raw storage scan; an extra list element is tolerated only when explained by the listed epoch-prefix finding", "4.20"),
- "C03": ("chainmc", "exhaustive grid: every method of the eleven manifests compiled from the tree x eight signer sets x committee sizes {1,3,4,7}, each case executed from one prepared base state, full storage/notification/token diff oracle",
-         "2752 cases: ~75 non-safe method rows (a hand-written table gives the argument vector and the documented witness requirement; manifest methods without a row are reported as uncovered, never failed) x {stranger, one Alphabet member, Alphabet 2/3+1, committee majority, named key, named key+Alphabet, named key+majority, floor(2n/3) single members}: insufficient witnesses => empty diff on all contracts, no notification, no GAS/NEO/NEOFS movement; sufficient => HALT (update: past authorisation, stopped by the version gate); ~90 safe-method rows with all witnesses => empty diff; verify of Proxy/Alphabet/Processing accepts exactly the documented multi-signatures", "4.3"),
+ "C03": ("chainmc", "exhaustive grid: every method of the eleven manifests compiled from the tree x eight signer sets x committee sizes 1..7, each case executed from one prepared base state, full storage/notification/token diff oracle",
+         "5040 cases: ~80 non-safe method rows (incl. calls placed in the block right after the NeoFSAlphabet role changed hands) (a hand-written table gives the argument vector and the documented witness requirement; manifest methods without a row are reported as uncovered, never failed) x {stranger, one Alphabet member, Alphabet 2/3+1, committee majority, named key, named key+Alphabet, named key+majority, floor(2n/3) single members}: insufficient witnesses => empty diff on all contracts, no notification, no GAS/NEO/NEOFS movement; sufficient => HALT (update: past authorisation, stopped by the version gate); ~90 safe-method rows with all witnesses => empty diff; verify of Proxy/Alphabet/Processing accepts exactly the documented multi-signatures", "4.3"),
  "C15": ("chainmc", "exhaustive enumeration of the finite artefact set (11 scripts, manifests, bindings, deployment order and its transpositions, versions); where a shipped script differs from a fresh compilation, dual-world lock-step exploration (same contract hash, shipped vs fresh executable) of the property drivers plus a method-table x integer-boundary differential",
          "byte comparison of every embedded script/token list/manifest (read through contracts.GetFS/GetMain) with a fresh library compilation; on any script difference the verdict comes from execution: every C03 method row x integer-argument boundary values and the quick BFS explorations of the drivers that involve the contract are run in two worlds and every transition's outcome and successor state must coincide; GetFS() order deployed on a fresh chain (NNS-resolved dependencies) plus all adjacent transpositions; version() of all embedded and fresh contracts == VERSION; bindings regenerated byte-for-byte and every invoked method/arity matched against the manifest ABI by an independent go/ast pass", "4.15"),
  "C13": ("deploymc", "stateless schedule/crash exploration of the real deploy.Deploy by iterative deviation bounding (default schedule, then all enumerated one-deviation schedules: sleep, crash-restart, adjacent reorder, absent minority; thorough: pairs) on an in-process neo-go chain with Notary services under testing/synctest virtual time; exhaustive input grids for the three pure helpers",
          "quick: n=1..4 default (determinism self-check), every sleep(member, round, 1) and every crash at every second round with immediate restart for n<=3, adjacent transaction swaps for n=2, every absent minority for n=3,4 (~1450 complete runs of Deploy); thorough: n=1..7, sleeps of 1/3/150 rounds and crashes with two restart delays for n<=4, call-granular crash points, reorders for n<=3, minorities for n=3..7, two-deviation sleep pairs for n=2, all 2^32 heights of the transaction-window helper; oracle on every final chain: all runs return nil, roles designated to exactly the committee, NNS id 1, every system name resolves to exactly one contract with the supplied executable, 8+n contracts, no designation with an invalid witness ever submitted, a second run submits no deploy/update/register/addRecord/setRecord/designateAsRole and changes nothing", "3"),
  "C16": ("chainmc", "exhaustive grids: (contract x version around both bounds x synthetic legacy storage) driven through an old-version stub that calls management.update so the tree's _deploy(data,true) runs on that storage; and (contract x signer set x committee size) updating the real contracts to a scratch build of the same tree with the patch version +1",
-         "recorded dumps (testnet v0.15.4, mainnet v0.16, NNS testnet v0.17): the recorded old executables answer up to 300 reads per contract before, the tree's contract after the committee's update, lenient only where a migration is documented; 1130 window/migration cases: 11 contracts x {prev-1, prev, prev+1, 15999, 16000, 16999, 17000, 17999, 18000, 18999, 19000, 19999, cur-1, cur, cur+1} x layouts (un-prefixed/prefixed/mixed balance accounts incl. a lock account, un-prefixed/prefixed/mixed container and owner-index keys with eACL and alias, old-format netmap snapshots and candidates with ring sizes 3/10/12, stored subscriber hashes, owned TLDs with names and records, audit/reputation/neofsid/neofs/alphabet data) x notary flag {absent,false,true} x ballots {absent,empty,stale,fresh}: outside the window => FAULT by the version check with an empty diff; inside => HALT and every read-API answer equals what the generator stored (fresh ballot + notary=true must fault); 264 gate cases for committees of 1,3,4,7: only the committee majority updates, version()+1, read API unchanged", "4.16"),
+         "recorded dumps (testnet v0.15.4, mainnet v0.16, NNS testnet v0.17): the recorded old executables answer up to 300 reads per contract before, the tree's contract after the committee's update, lenient only where a migration is documented; 1130 window/migration cases: 11 contracts x {prev-1, prev, prev+1, 15999, 16000, 16999, 17000, 17999, 18000, 18999, 19000, 19999, cur-1, cur, cur+1} x layouts (un-prefixed/prefixed/mixed balance accounts incl. a lock account, un-prefixed/prefixed/mixed container and owner-index keys with eACL and alias, old-format netmap snapshots and candidates with ring sizes 3/10/12, stored subscriber hashes, owned TLDs with names and records, audit/reputation/neofsid/neofs/alphabet data) x notary flag {absent,false,true} x ballots {absent,empty,stale,fresh}: outside the window => FAULT by the version check with an empty diff; inside => HALT and every read-API answer equals what the generator stored (fresh ballot + notary=true must fault); ~300 gate cases for committees of 1,2,3,4,6,7 (incl. the main-chain contracts right after a role rotation): only the committee majority updates, version()+1, read API unchanged", "4.16"),
 }
 
 NOT_YET = "check not built yet in this revision (work in progress; see DESIGN.md section 10)"
